@@ -67,6 +67,8 @@ def genPoly : Handler
   | "fast", [.sym "b", a, b] => do
       let a ← bPoly? a; let b ← bPoly? b; pure (okBO (Gen.Poly.fast_multiply FB FB FB FB.mul TB.ntt TB.ntt TB.intt a b))
   | "ssq", [.sym "b", a] => do let a ← bPoly? a; if a.length > 96 then none else pure (okBO (Gen.Poly.slow_square FB a))
+  | "pow", [.sym "b", a, .nat e] => do
+      let a ← bPoly? a; if a.length > 96 || e ≥ 2 ^ 32 || a.length * e > 4096 then none else pure (okBO (Gen.Poly.pow FB a e))
   | "sq", [.sym "b", a] => do
       let a ← bPoly? a; if a.length > 96 then none else pure (okBO (Gen.Poly.square FB (fastSquare FB TB) a))
   | "fsq", [.sym "b", a] => do let a ← bPoly? a; pure (okBO (Gen.Poly.fast_square FB TB.ntt TB.intt a))
@@ -84,6 +86,8 @@ def genPoly : Handler
   | "fast", [.sym "x", a, b] => do
       let a ← xPoly? a; let b ← xPoly? b; pure (okXO (Gen.Poly.fast_multiply FX FX FX FX.mul TX.ntt TX.ntt TX.intt a b))
   | "ssq", [.sym "x", a] => do let a ← xPoly? a; if a.length > 64 then none else pure (okXO (Gen.Poly.slow_square FX a))
+  | "pow", [.sym "x", a, .nat e] => do
+      let a ← xPoly? a; if a.length > 64 || e ≥ 2 ^ 32 || a.length * e > 2048 then none else pure (okXO (Gen.Poly.pow FX a e))
   | "smul", [.sym "x", a, s] => do let a ← xPoly? a; let s ← xElem? s; pure (okX (Gen.Poly.scalar_mul FX FX.mul a s))
   | "scale", [.sym "x", a, s] => do let a ← xPoly? a; let s ← xElem? s; pure (okX (Gen.Poly.scale FX FX.one FX.mul FX.mul a s))
   | "naive", [.sym "bx", a, b] => do
